@@ -4,6 +4,7 @@
 //!   smtverif replay <path> [--quiet]             re-execute one recorded case, no explorer involved
 //!   smtverif --worker <PROPERTY> <tier> <seed> <lo> <hi>     (internal) run batches lo..hi
 
+mod csets;
 mod infra;
 mod pool;
 mod prog;
@@ -23,6 +24,10 @@ fn engine_for(prop: &str) -> Option<Box<dyn Engine>> {
         "C08" => Some(Box::new(strs::c08_engine())),
         "C09" => Some(Box::new(strs::c09_engine())),
         "C17" => Some(Box::new(strs::c17_engine())),
+        "C11" => Some(Box::new(csets::c11_engine())),
+        "C12" => Some(Box::new(csets::c12_engine())),
+        "C15" => Some(Box::new(csets::c15_engine())),
+        "C20" => Some(Box::new(csets::c20_engine())),
         _ => None,
     }
 }
